@@ -492,6 +492,7 @@ func (l *lexer) parseType() *TypeExpr {
 // ---------- contract file structure ----------
 
 type Clause struct {
+	Assumed  bool // "defines": the clause defines a ghost relation by this function's result; assumed by callers, not proved
 	Internal bool // "check": proved at every return with the function's locals in scope, never assumed by callers
 	Label string
 	Expr  Expr
@@ -509,7 +510,8 @@ type LoopSpec struct {
 }
 
 type AssignItem struct {
-	Kind string // field, deref, elems, global, all
+	Type *TypeExpr
+	Kind string // field, deref, elems, global, all, var, anyfield
 	X    Expr   // object expression
 	Name string // field name / global name
 }
@@ -532,6 +534,7 @@ type FuncContract struct {
 }
 
 type GhostFunc struct {
+	Heap    bool // reads the heap: the components it reads are passed as extra arguments
 	Name    string
 	Params  []Binder
 	Result  *TypeExpr
@@ -571,7 +574,7 @@ type ContractFile struct {
 }
 
 var clauseKeywords = map[string]bool{
-	"func": true, "requires": true, "ensures": true, "check": true, "assigns": true, "loop": true,
+	"func": true, "requires": true, "ensures": true, "check": true, "defines": true, "assigns": true, "loop": true,
 	"ghost": true, "pred": true, "define": true, "axiom": true, "lemma": true, "inline": true,
 	"invariant": true, "decreases": true, "trusted": true, "pure": true, "note": true, "unroll": true, "ginv": true,
 }
@@ -649,7 +652,7 @@ func ParseContractFile(path, pkg string, raw bool) (*ContractFile, error) {
 			cf.Funcs = append(cf.Funcs, fc)
 			cur = fc
 			curLoop = ""
-		case "requires", "ensures", "check":
+		case "requires", "ensures", "check", "defines":
 			if cur == nil {
 				return nil, fmt.Errorf("%s: %s outside func", where, c.kw)
 			}
@@ -658,7 +661,7 @@ func ParseContractFile(path, pkg string, raw bool) (*ContractFile, error) {
 			if err != nil {
 				return nil, err
 			}
-			cl := &Clause{Label: label, Expr: e, Src: text, Where: where, Internal: c.kw == "check"}
+			cl := &Clause{Label: label, Expr: e, Src: text, Where: where, Internal: c.kw == "check", Assumed: c.kw == "defines"}
 			if c.kw == "requires" {
 				cur.Requires = append(cur.Requires, cl)
 			} else {
@@ -899,6 +902,29 @@ func parseAssigns(text, where string) ([]AssignItem, error) {
 	for _, part := range splitTop(text, ',') {
 		part = strings.TrimSpace(part)
 		switch {
+		case strings.HasPrefix(part, "any("):
+			// any(*T).f : field f of every object of type T
+			j := strings.Index(part, ").")
+			if j < 0 {
+				return nil, fmt.Errorf("%s: assigns item %q: want any(*T).field", where, part)
+			}
+			lx, err := lex(part[4:j], where)
+			if err != nil {
+				return nil, err
+			}
+			var te *TypeExpr
+			func() {
+				defer func() {
+					if r := recover(); r != nil {
+						err = fmt.Errorf("%s: bad type in %q", where, part)
+					}
+				}()
+				te = lx.parseType()
+			}()
+			if err != nil {
+				return nil, err
+			}
+			items = append(items, AssignItem{Kind: "anyfield", Type: te, Name: strings.TrimSpace(part[j+2:])})
 		case strings.HasPrefix(part, "global "):
 			items = append(items, AssignItem{Kind: "global", Name: strings.TrimSpace(part[7:])})
 		case strings.HasSuffix(part, "[..]"):
@@ -965,12 +991,18 @@ func parseGhost(text, where, pkg string) (g *GhostFunc, err error) {
 			panic(r)
 		}
 	}()
-	text = strings.TrimSpace(strings.TrimPrefix(strings.TrimSpace(text), "func"))
+	text = strings.TrimSpace(text)
+	heap := false
+	if strings.HasPrefix(text, "heap ") {
+		heap = true
+		text = strings.TrimSpace(text[5:])
+	}
+	text = strings.TrimSpace(strings.TrimPrefix(text, "func"))
 	lx, err := lex(text, where)
 	if err != nil {
 		return nil, err
 	}
-	g = &GhostFunc{Where: where, Pkg: pkg}
+	g = &GhostFunc{Where: where, Pkg: pkg, Heap: heap}
 	g.Name = lx.next().text
 	lx.expect("(")
 	for !lx.isOp(")") {
